@@ -1,12 +1,17 @@
 """Assumed contract of mpmath.mpf arithmetic at the working precision (DESIGN 3.2).
 
-An mpf value is tracked as (ideal real value t, dyadic exponent dy, absolute error bound err,
-magnitude bound mag).  While err == 0 and dy is known, every operation emits the obligation
-'mpf-exact': |result| * 2**dy < 2**prec, i.e. the exact result is representable with a prec-bit
-significand, so round-to-nearest returns it unchanged.  Every operation also requires the ghost
-global mp.dps to be 30 (prec 103) -- the obligation 'mp-dps'.
+Values are tracked as an integer numerator over a concrete denominator, so arithmetic on them is
+integer arithmetic.  While the denominator is a power of two and no rounding has happened the value is
+*exact*, and every operation emits the obligation 'mpf-exact': |numerator| < 2**prec (the exact result has
+a prec-bit significand, so round-to-nearest returns it unchanged).  Every operation also requires the
+ghost global mp.dps to be 30 (prec 103): obligation 'mp-dps'.  Results that cannot be exact (a quotient by
+6, a root) are *inexact*; what happens then is selected by ctx.opts['mpf_inexact']:
+   'error' : the executor refuses (EngineError)
+   'real'  : the ideal rational/real value is used and the rounding error is NOT modelled (assumption)
+   'hook'  : the sidecar contract supplies the error model
 """
 from fractions import Fraction
+from math import gcd
 import z3
 
 from .values import VInt, VFloat, VBool, VMpf, VNone
@@ -32,12 +37,16 @@ def need_dps(ex, p):
         ex.oblige(p, 'mp-dps', d.z() == 30, 'dps==30')
 
 
-def exact_ob(ex, p, t, dy, what):
-    if isinstance(t, Fraction):
-        if abs(t) * 2 ** dy >= 2 ** prec(ex):
+def exact_ob(ex, p, num, what):
+    if isinstance(num, int):
+        if abs(num) >= 2 ** prec(ex):
             ex.oblige(p, 'mpf-exact', False, what)
         return
-    ex.oblige(p, 'mpf-exact', z_abs(t) * (2 ** dy) < 2 ** prec(ex), what)
+    ex.oblige(p, 'mpf-exact', z3.And(num < 2 ** prec(ex), num > -(2 ** prec(ex))), what)
+
+
+def is_pow2(n):
+    return n > 0 and (n & (n - 1)) == 0
 
 
 def from_val(ex, p, v, what='mpf()'):
@@ -47,26 +56,26 @@ def from_val(ex, p, v, what='mpf()'):
     v = to_int_val(v)
     need_dps(ex, p)
     if isinstance(v, VInt):
-        t = Fraction(v.t) if v.conc() else z3.ToReal(v.z())
-        exact_ob(ex, p, t, 0, f'{what}:int')
-        return VMpf(t, 0)
+        exact_ob(ex, p, v.t, f'{what}:int')
+        return VMpf(v.t, 1)
     if isinstance(v, VFloat):
-        from .arith import float_prov, _dy
-        k = _dy(float_prov(v))
         if v.conc():
-            # a binary64 literal converts exactly; the real model uses its decimal value
-            return VMpf(v.t, k, Fraction(0) if k is not None else abs(v.t) * Fraction(1, 2 ** 52))
-        return VMpf(v.z(), k)
+            fr = v.t
+            if is_pow2(fr.denominator):
+                return VMpf(fr.numerator, fr.denominator)
+            # a non-dyadic decimal literal (0.01): mpmath sees its binary64 value; the ideal value is used
+            return VMpf(fr.numerator, fr.denominator, err=abs(fr) * Fraction(1, 2 ** 52))
+        return VMpf(None, 1, t=v.z(), err=None)
     if isinstance(v, VStr) and v.is_lit():
         fr = Fraction(v.lit())
-        from .arith import _lit_dy
-        k = _lit_dy(fr)
-        return VMpf(fr, k, Fraction(0) if k is not None else abs(fr) * Fraction(1, 2 ** prec(ex)))
+        if is_pow2(fr.denominator):
+            return VMpf(fr.numerator, fr.denominator)
+        return VMpf(fr.numerator, fr.denominator, err=abs(fr) * Fraction(1, 2 ** prec(ex)))
     raise EngineError(f'mpf({v!r})')
 
 
-def is_pow2(n):
-    return n > 0 and (n & (n - 1)) == 0
+def lcm(a, b):
+    return a * b // gcd(a, b)
 
 
 def binop(ex, p, opn, a, b, node=None):
@@ -74,62 +83,107 @@ def binop(ex, p, opn, a, b, node=None):
     x = from_val(ex, p, a, f'L{line}')
     y = from_val(ex, p, b, f'L{line}')
     need_dps(ex, p)
-    conc = x.conc() and y.conc()
-    tx = x.t if conc else x.z()
-    ty = y.t if conc else y.z()
-    exact_in = (x.err == 0 and y.err == 0 and x.dy is not None and y.dy is not None)
-    if opn in ('Add', 'Sub', 'Mult'):
-        t = {'Add': lambda: tx + ty, 'Sub': lambda: tx - ty, 'Mult': lambda: tx * ty}[opn]()
-        if exact_in:
-            dy = max(x.dy, y.dy) if opn != 'Mult' else x.dy + y.dy
-            exact_ob(ex, p, t, dy, f'{opn}@L{line}')
-            yield p, VMpf(t, dy)
-            return
-        yield p, inexact(ex, p, opn, x, y, t, node)
+    if not (x.rational() and y.rational()):
+        if opn == 'Div':
+            for q, r in ex.raise_unless(p, y.z() != 0, 'ZeroDivisionError', node):
+                yield q, (r if r is not None else real_result(ex, q, opn, x, y, node))
+        elif opn in ('Add', 'Sub', 'Mult'):
+            yield p, real_result(ex, p, opn, x, y, node)
+        else:
+            raise EngineError(f'mpf operator {opn}')
+        return
+    both_exact = x.exact() and y.exact()
+    if opn in ('Add', 'Sub'):
+        d = lcm(x.den, y.den)
+        nx, ny = x.num * (d // x.den), y.num * (d // y.den)
+        num = nx + ny if opn == 'Add' else nx - ny
+        yield p, finish(ex, p, opn, x, y, num, d, both_exact, node)
+        return
+    if opn == 'Mult':
+        yield p, finish(ex, p, opn, x, y, x.num * y.num, x.den * y.den, both_exact, node)
         return
     if opn == 'Div':
-        nz = (ty != 0)
-        for q, r in ex.raise_unless(p, nz, 'ZeroDivisionError', node):
+        for q, r in ex.raise_unless(p, (y.num != 0), 'ZeroDivisionError', node):
             if r is not None:
                 yield q, r
                 continue
-            t = tx / ty
-            if y.conc() and y.t.denominator == 1 and is_pow2(int(y.t)) and exact_in:
-                yield q, VMpf(t, x.dy + int(y.t).bit_length() - 1)
+            if isinstance(y.num, int):
+                c = y.num
+                num = x.num * y.den if c > 0 else -(x.num * y.den)
+                den = x.den * abs(c)
+                g = gcd(y.den, den)
+                if isinstance(num, int):
+                    yield q, finish(ex, q, opn, x, y, num, den, both_exact, node)
+                else:
+                    # keep numerators free of common constant factors where the structure shows them
+                    num = x.num * (y.den // g) if c > 0 else -(x.num * (y.den // g))
+                    yield q, finish(ex, q, opn, x, y, num, den // g, both_exact, node)
             else:
-                yield q, inexact(ex, q, 'Div', x, y, t, node)
+                yield q, real_result(ex, q, opn, x, y, node)
         return
     raise EngineError(f'mpf operator {opn}')
 
 
-def inexact(ex, p, opn, x, y, t, node):
+def finish(ex, p, opn, x, y, num, den, both_exact, node):
+    line = getattr(node, 'lineno', '?')
+    if both_exact and is_pow2(den):
+        exact_ob(ex, p, num, f'{opn}@L{line}')
+        return VMpf(num, den)
+    # inexact: the ideal value is num/den, the stored mpf differs from it by rounding
     mode = ex.ctx.opts.get('mpf_inexact', 'error')
     if mode == 'real':
-        ex.ctx.assume_note('inexact mpf operations (quotients, roots) are treated as exact real arithmetic')
-        return VMpf(t, None, Fraction(0))
-    if mode == 'bound':
-        hook = ex.ctx.opts['mpf_bound_hook']
-        return hook(ex, p, opn, x, y, t, node)
-    raise EngineError(f'inexact mpf operation {opn} at line {getattr(node, "lineno", "?")} (no error model selected)')
+        ex.ctx.assume_note('mpf results that are not exactly representable (quotients by 6, operands already rounded) '
+                           'are treated as their ideal rational values: rounding at 103 bits is not modelled')
+        return VMpf(num, den, err=None)
+    if mode == 'hook':
+        return ex.ctx.opts['mpf_inexact_hook'](ex, p, opn, x, y, num, den, node)
+    raise EngineError(f'inexact mpf operation {opn} at line {line} (no error model selected)')
+
+
+def real_result(ex, p, opn, x, y, node):
+    mode = ex.ctx.opts.get('mpf_inexact', 'error')
+    if mode not in ('real', 'hook'):
+        raise EngineError(f'inexact mpf operation {opn} at line {getattr(node, "lineno", "?")} (no error model selected)')
+    ex.ctx.assume_note('mpf operations on non-rational values (roots, general quotients) are treated as exact real arithmetic')
+    tx, ty = x.z(), y.z()
+    t = {'Add': lambda: tx + ty, 'Sub': lambda: tx - ty, 'Mult': lambda: tx * ty, 'Div': lambda: tx / ty}[opn]()
+    return VMpf(None, 1, t=t, err=None)
 
 
 def to_int(ex, p, v, mode):
     """int(mpf) / round(mpf) / floor / ceil as python int"""
     need_dps(ex, p)
-    if v.err != 0:
+    if not v.exact():
         hook = ex.ctx.opts.get('mpf_toint_hook')
-        if hook is None:
+        if hook is not None:
+            r = hook(ex, p, v, mode)
+            if r is not None:
+                return r
+        if ex.ctx.opts.get('mpf_inexact') not in ('real', 'hook'):
             raise EngineError('int conversion of an inexact mpf')
-        return hook(ex, p, v, mode)
+    if not v.rational():
+        t = v.z()
+        return VInt({'trunc': z_trunc, 'floor': z_floor, 'ceil': z_ceil, 'round': z_round_half_even}[mode](t))
     if v.conc():
         import math
         f = v.t
         return VInt(int({'trunc': math.trunc, 'floor': math.floor, 'ceil': math.ceil, 'round': round}[mode](f)))
-    t = v.z()
-    r = {'trunc': z_trunc, 'floor': z_floor, 'ceil': z_ceil, 'round': z_round_half_even}[mode](t)
-    if mode == 'round':
+    n, d = v.num, v.den
+    if d == 1:
+        r = n
+    elif mode == 'floor':
+        r = n / d
+    elif mode == 'ceil':
+        r = -((-n) / d)
+    elif mode == 'trunc':
+        r = z3.If(n >= 0, n / d, -((-n) / d))
+    else:
+        f = (2 * n + d) / (2 * d)
+        tie = ((2 * n + d) % (2 * d)) == 0
+        r = z3.If(z3.And(tie, f % 2 == 1), f - 1, f)
+    if mode == 'round' and v.exact():
         # mpf.__round__ converts the rounded integer back through the context: exact below 2**prec
-        ex.oblige(p, 'mpf-exact', z_abs(t) < 2 ** prec(ex) - 1, 'round()')
+        exact_ob(ex, p, r, 'round()')
     return VInt(r)
 
 
@@ -143,12 +197,14 @@ def _unary(mode):
         v = from_val(ex, p, args[0])
         need_dps(ex, p)
         if mode == 'fabs':
-            yield p, VMpf(abs(v.t) if v.conc() else z_abs(v.z()), v.dy, v.err, v.mag)
+            if v.rational():
+                yield p, VMpf(abs(v.num) if v.conc() else z_abs(v.num), v.den, err=v.err)
+            else:
+                yield p, VMpf(None, 1, t=(abs(v.t) if v.conc() else z_abs(v.z())), err=v.err, mag=v.mag)
             return
         i = to_int(ex, p, v, mode)
-        t = Fraction(i.t) if i.conc() else z3.ToReal(i.z())
-        exact_ob(ex, p, t, 0, f'mpmath.{mode}')
-        yield p, VMpf(t, 0)
+        exact_ob(ex, p, i.t, f'mpmath.{mode}')
+        yield p, VMpf(i.t, 1)
     return f
 
 
